@@ -64,6 +64,20 @@ def mg_atomizer(func):
                     return (('eq', a, b), isinstance(op, ast.Eq))
                 if isinstance(op, (ast.In, ast.NotIn)):
                     return (('in', l, r), isinstance(op, ast.In))
+        # other tests between two parameters (regular expression search,
+        # prefix tests, ...) are atoms of their own: the decision then
+        # depends on something the documented rule does not mention
+        if isinstance(e, ast.Call):
+            args_c = [canon(a) for a in e.args]
+            nm = call_name(e) or ''
+            if nm.startswith('re.') and len(args_c) == 2 and all(args_c):
+                return ((nm, args_c[0], args_c[1]), True)
+            if isinstance(e.func, ast.Attribute) and canon(
+                    e.func.value) and len(args_c) == 1 and args_c[0] and \
+                    e.func.attr in ('startswith', 'endswith', 'find',
+                                    'count', 'index', '__contains__'):
+                return (('.' + e.func.attr, canon(e.func.value),
+                         args_c[0]), True)
         raise AnalysisError(
             f'matches_golden: expression "{unparse(e)}" (line '
             f'{getattr(e, "lineno", "?")}) is not a recognised atom over the '
@@ -679,6 +693,88 @@ def rule_r6(chk, prog):
                           'the command list is mutated', loc=om.loc(st))
 
 
+TEXT_MODE_KW = ('text', 'universal_newlines', 'encoding', 'errors')
+
+
+def rule_r7(chk, prog):
+    chk.rule('C09.R7', 'the streams that are compared are the bytes the '
+             'command wrote, decoded once: the pipes are binary (no text '
+             'mode / newline translation) and the record holds '
+             '<communicate result>.decode()')
+    m = prog.mod('checker')
+    f = m.func('execute')
+    popens = [c for c in calls_in(f) if (call_name(c) or '').endswith(
+        'Popen')]
+    n = 0
+    for c in popens:
+        kws = {k.arg: k.value for k in c.keywords if k.arg}
+        # keyword dictionaries passed with ** (one level)
+        for k in c.keywords:
+            if k.arg is None and isinstance(k.value, ast.Name):
+                for st in ast.walk(f):
+                    if isinstance(st, ast.Assign) and unparse(
+                            st.targets[0]) == k.value.id and isinstance(
+                                st.value, ast.Dict):
+                        for kk, vv in zip(st.value.keys, st.value.values):
+                            if isinstance(kk, ast.Constant):
+                                kws[kk.value] = vv
+                    if isinstance(st, ast.Assign) and isinstance(
+                            st.targets[0], ast.Subscript) and unparse(
+                                st.targets[0].value) == k.value.id and \
+                            isinstance(st.targets[0].slice, ast.Constant):
+                        kws[st.targets[0].slice.value] = st.value
+        n += 1
+        bad = [k for k in TEXT_MODE_KW if k in kws and not (
+            isinstance(kws[k], ast.Constant) and kws[k].value in (
+                None, False))]
+        chk.check('C09.R7', 'checker.execute', f'binary pipes: '
+                  f'{unparse(c)[:50]}', not bad,
+                  f'the command\'s pipes are opened in text mode ({bad}): '
+                  'universal-newline translation turns CR LF and CR in its '
+                  'output into LF, so a candidate whose stream differs from '
+                  'the golden stream only in line terminators is accepted '
+                  'where equality is documented', loc=m.loc(c),
+                  nontrivial=True)
+    chk.floor('C09.R7', 'Popen call sites', n, 1)
+    # the record of a finished run
+    comm = None
+    for st in ast.walk(f):
+        if isinstance(st, ast.Assign) and isinstance(
+                st.value, ast.Call) and isinstance(
+                    st.value.func, ast.Attribute) and \
+                st.value.func.attr == 'communicate' and isinstance(
+                    st.targets[0], ast.Tuple) and len(
+                        st.targets[0].elts) == 2:
+            comm = [unparse(x) for x in st.targets[0].elts]
+    if comm is None:
+        raise AnalysisError('checker.execute: "out, err = '
+                            '<proc>.communicate(...)" not found')
+    nrec = 0
+    for r in ast.walk(f):
+        if isinstance(r, ast.Return) and isinstance(
+                r.value, ast.Call) and call_name(r.value) == 'RunInfo':
+            v = r.value
+            vals = list(v.args) + [None] * 4
+            for k in v.keywords:
+                if k.arg in ('exit', 'out', 'err', 'runtime'):
+                    vals[('exit', 'out', 'err', 'runtime').index(
+                        k.arg)] = k.value
+            out, err = vals[1], vals[2]
+            if out is None or err is None:
+                continue
+            if all(isinstance(x, ast.Constant) for x in (out, err)):
+                continue  # unchecked / expired records
+            nrec += 1
+            ok = unparse(expand_locals(f, out)) == f'{comm[0]}.decode()' and \
+                unparse(expand_locals(f, err)) == f'{comm[1]}.decode()'
+            chk.check('C09.R7', 'checker.execute', r, ok,
+                      'the record of a finished run is not (status, '
+                      f'{comm[0]}.decode(), {comm[1]}.decode(), time): the '
+                      'compared streams are not the command\'s output '
+                      'decoded once', loc=m.loc(r), nontrivial=True)
+    chk.floor('C09.R7', 'records of finished runs', nrec, 1)
+
+
 def run(tier):
     prog = Program()
     chk = Check(
@@ -713,6 +809,7 @@ def run(tier):
     chk.guard(rule_r4, chk, prog)
     chk.guard(rule_r5, chk, prog)
     chk.guard(rule_r6, chk, prog)
+    chk.guard(rule_r7, chk, prog)
     extra = None
     if tier == 'thorough':
         from .. import selftest
